@@ -154,7 +154,7 @@ func C03(r *eng.Run) {
 	if r.Thorough() {
 		nlead = 3
 	}
-	leads := append(LeadSweep(nlead), WordShapes()...)
+	leads := append(append(LeadSweep(nlead), WordShapes()...), LimitShapes()...)
 	sm := SmallShapes()
 	r.Bounds["lead_prefix_digits"] = nlead
 	r.Par(len(leads), func(w *eng.W, i int) {
